@@ -177,19 +177,19 @@ CHECKS = {
              "self.db taken from the implementation for facet_collection; set iteration order, pickle, output() out of scope.",
         technique=T.format(how="invariant by induction over operation histories, linear and heap layers")),
     "C02": dict(
-        text="Theorems (Props/C02.v, 18, all Closed under the global context): for every valid paragraph (boolean valid_para) "
+        text="Theorems (Props/C02.v, 20, all Closed under the global context): for every valid paragraph (boolean valid_para) "
              "dump is the Policy line list and Deb822/Dsc/Changes(dump d) = the fields with first lines trimmed, in order; for "
              "documents of any number of blocks, each plain or clearsigned, separated by >= 1 blank lines with optional leading "
              "blank lines, iter_paragraphs returns exactly the paragraphs; the five input forms (str, bytes, file, lines with and "
              "without line ends; LF or CRLF; with or without final line end) give the same result; a clearsign envelope is "
-             "transparent and the reader stops right behind END; comment lines anywhere are ignored (Deb822: on ANY line list; "
-             "Dsc/Changes: in the stated positions); iter_paragraphs never runs out of fuel.  Induction over field/line/block "
+             "transparent and the reader stops right behind END; comment lines anywhere — whole comment blocks between blank lines included — are ignored for all three classes "
+             "and either strictness (Deb822 additionally on ANY line list); no fuel error is possible.  Induction over field/line/block "
              "lists, no size bound.  Model compared with Deb822/Dsc/Changes constructors, iter_paragraphs and dump on every run.",
         design="§4 C02",
         note=COMMON_NOTE + "Modelled not verified: regex leaves _key_part/_single/_multi/_multidata/_gpgre (compared per run, "
              "incl. leaf sweeps); UTF-8 codec not modelled (bytes inputs are the code points of their decoding; exact for valid "
              "UTF-8 as argued in Deb822/Model.v); _multivalued field names of Dsc/Changes are C12's; apt_pkg path absent.  "
-             "Dsc/Changes comment handling is stated for the positions listed in C02_comments_ignored_dsc_changes.",
+             "For Dsc/Changes the any-line-list form of comments_ignored is not claimed (malformed input: a comment before an envelope whose payload contains a blank line changes the split; stated as an Example).",
         technique="Coq proof (induction over fields/lines/blocks) + in-Coq differential correspondence"),
     "C03": dict(
         text="Theorems (Props/C03.v, 16, all Closed under the global context): for all valid version strings (C14's grammar) "
